@@ -106,6 +106,70 @@ fn program(name: &str, credit: u32, polls: usize, ack: Option<u32>, close: bool)
     println!("VERIF-LOOM {name} credit={credit} polls={polls} ack={} close={} => {v:?}", ack.unwrap_or(0), u8::from(close));
 }
 
+/// program: two writers share the stream (`poll_write_push` takes `&self`): the main thread polls
+/// `pa` times, a second thread `pb` times, each with its own waker; optionally an acknowledge
+/// and/or a close in further threads.  Outcome: both writers' results, final credit, closed flag.
+fn program2(name: &str, credit: u32, pa: usize, pb: usize, ack: Option<u32>, close: bool) {
+    OUTCOMES.lock().unwrap().clear();
+    loom::model(move || {
+        let (stream, data) = parts(credit);
+        let stream = Arc::new(stream);
+        let data = Arc::new(data);
+        let mut handles = Vec::new();
+        if let Some(n) = ack {
+            let d = data.clone();
+            handles.push(loom::thread::spawn(move || d.acknowledge(n)));
+        }
+        if close {
+            let d = data.clone();
+            handles.push(loom::thread::spawn(move || {
+                d.disallow_write();
+            }));
+        }
+        let s2 = stream.clone();
+        let second = loom::thread::spawn(move || {
+            let wk = std::sync::Arc::new(CountWaker(loom::sync::atomic::AtomicUsize::new(0)));
+            let waker = std::task::Waker::from(wk);
+            let cx = Context::from_waker(&waker);
+            let mut rs = String::new();
+            for _ in 0..pb {
+                rs.push_str(res(s2.poll_obtain_write_permission(&cx)));
+            }
+            rs
+        });
+        let wk = std::sync::Arc::new(CountWaker(loom::sync::atomic::AtomicUsize::new(0)));
+        let waker = std::task::Waker::from(wk);
+        let cx = Context::from_waker(&waker);
+        let mut ra = String::new();
+        for _ in 0..pa {
+            ra.push_str(res(stream.poll_obtain_write_permission(&cx)));
+        }
+        let rb = second.join().unwrap();
+        for h in handles {
+            h.join().unwrap();
+        }
+        let credit = stream.psh_send_remaining.load(Ordering::SeqCst);
+        let fin = stream.finish_sent.load(Ordering::SeqCst);
+        OUTCOMES.lock().unwrap().insert(format!("{ra}|{rb} {credit} {}", u8::from(fin)));
+    });
+    let set = OUTCOMES.lock().unwrap();
+    let v: Vec<&String> = set.iter().collect();
+    println!(
+        "VERIF-LOOM2 {name} credit={credit} pa={pa} pb={pb} ack={} close={} => {v:?}",
+        ack.unwrap_or(0),
+        u8::from(close)
+    );
+}
+
+#[test]
+fn verif_loom_two_writers() {
+    for credit in [0u32, 1, 2] {
+        program2("Wa|Wb", credit, 1, 1, None, false);
+        program2("Wa|Wb|K", credit, 1, 1, Some(1), false);
+    }
+    program2("Wa|Wb|D", 1, 1, 1, None, true);
+}
+
 #[test]
 fn verif_loom_outcomes() {
     for credit in [0u32, 1, 2] {
